@@ -53,6 +53,22 @@ var (
 
 const workers = 8
 
+// canonicalRejected: a well-formed canonical input was refused. On the unchanged tree that means the harness
+// builds wrong inputs (exit 2); but a mutant that verifies against the WRONG validator set refuses the canonical
+// input AND accepts a forged one, so the verdict is postponed to the end: violations win over this error.
+var (
+	canonMu  sync.Mutex
+	canonErr string
+)
+
+func canonicalRejected(format string, a ...any) {
+	canonMu.Lock()
+	if canonErr == "" {
+		canonErr = fmt.Sprintf(format, a...)
+	}
+	canonMu.Unlock()
+}
+
 func must(err error, what string) {
 	if err != nil {
 		r.HarnessError("%s: %v", what, err)
@@ -286,7 +302,7 @@ func ontPart() mc.Stats {
 				r.Violation("ont:state-changed-without-accepted-header", detail(nil))
 			}
 			if found && e.variant == fmt.Sprintf("ok:S%d", s.Keys[k]) {
-				r.HarnessError("ont canonical header rejected: %s after %v: %v", e.id, path, txErr)
+				canonicalRejected("ont canonical header rejected: %s after %v: %v", e.id, path, txErr)
 			}
 		}
 		return accepted
@@ -560,7 +576,7 @@ func neoPart(k neoKit) mc.Stats {
 				if len(e.hdrs) == 1 {
 					h := e.hdrs[0]
 					if h.index > prev.H && h.next != prev.NC && h.script == prev.NC && (h.variant == "ok" || h.variant == "tail" || h.variant == "all") {
-						r.HarnessError("%s canonical validator change rejected: %s after %v", k.name, e.id, path)
+						canonicalRejected("%s canonical validator change rejected: %s after %v", k.name, e.id, path)
 					}
 				}
 				return
@@ -675,6 +691,12 @@ func main() {
 	}
 	if total.Truncated {
 		r.Capped("deadline reached inside a BFS")
+	}
+	if canonErr != "" && r.NViolations() == 0 {
+		r.HarnessError("%s", canonErr)
+	}
+	if canonErr != "" {
+		r.Note("canonical_input_rejected", canonErr)
 	}
 	fmt.Println("per-router:", per)
 	r.Assume("ECDSA P-256 / SHA-256 are sound", "ONT headers carry no parent linkage check in the contract: heights are independent events",
